@@ -37,6 +37,11 @@ def _relabel_overflow(r):
     inf*0 assertion after a coefficient wrapped to 0) is machine overflow: outside every property's range."""
     if r.status != "CRASH":
         return
+    try:  # not for the IO engine: turning a numeric literal of the input text into a number is the reader's job, a trap there is a crash on bad input
+        if r.cmd and r.cmd[2] and str(r.cmd[2][0]).split(" ")[0] in ("trunc", "mut", "hex"):
+            return
+    except Exception:
+        pass
     repo_frames = [x for x in r.crash if re.search(r"/lib(smt|json|riddle|core|solver|executor|concurrent)\.so\(", x)]
     if repo_frames and ("_ZNK3smt8rational" in repo_frames[0] or "_ZN3smt8rational" in repo_frames[0]):
         r.status = "OVERFLOW"
